@@ -111,17 +111,21 @@ theorem hkdf_expand_src_eq (digest : δ) (prk info okm : Bytes) :
   | none => rfl
   | some digest =>
     simp only []
-    cases Hmac.new D digest prk with
-    | none => rfl
-    | some mac =>
-      simp only []
-      by_cases hos : Hmac.output_bytes D mac = 0
-      · simp [hos]
-      · simp only [ne_eq, hos, not_false_eq_true, not_true_eq_false, if_false]
-        rw [← chunks_lengths _ (Nat.pos_of_ne_zero hos), ← hkdf_expand_loop1_eq]
-        cases hkdf_expand_loop1_src D info (chunks (Hmac.output_bytes D mac) okm) mac (zeros (Hmac.output_bytes D mac)) 0 [] with
-        | none => rfl
-        | some r => obtain ⟨a, b, c, d⟩ := r; rfl
+    -- assert!(prk.len() >= digest.output_bytes());
+    by_cases hp : prk.length ≥ D.output_bytes digest
+    · simp only [hp, not_true_eq_false, if_false]
+      cases Hmac.new D digest prk with
+      | none => rfl
+      | some mac =>
+        simp only []
+        by_cases hos : Hmac.output_bytes D mac = 0
+        · simp [hos]
+        · simp only [ne_eq, hos, not_false_eq_true, not_true_eq_false, if_false]
+          rw [← chunks_lengths _ (Nat.pos_of_ne_zero hos), ← hkdf_expand_loop1_eq]
+          cases hkdf_expand_loop1_src D info (chunks (Hmac.output_bytes D mac) okm) mac (zeros (Hmac.output_bytes D mac)) 0 [] with
+          | none => rfl
+          | some r => obtain ⟨a, b, c, d⟩ := r; rfl
+    · simp only [hp, not_false_eq_true, if_true]
 
 end hkdf
 /-! ### src/pbkdf2.rs -/
